@@ -108,7 +108,7 @@ def prune(keep):
     ds = [os.path.join(root, d) for d in os.listdir(root)] if os.path.isdir(root) else []
     ds = [d for d in ds if os.path.isdir(d) and os.path.abspath(d) != os.path.abspath(keep)]
     ds.sort(key=lambda d: os.path.getmtime(d), reverse=True)
-    for d in ds[6:]:
+    for d in ds[16:]:
         shutil.rmtree(d, ignore_errors=True)
 
 
@@ -124,7 +124,11 @@ def ensure_facts(fs="full", repo=REPO, log=sys.stderr):
     if _complete(d, fs):
         os.utime(d, None)
         return d, info
-    lock = open(os.path.join(CACHE, "extract.lock"), "w")
+    # one extraction at a time per cargo target dir (shards of the self-test runner bring their own target dir)
+    lock_name = "extract.lock"
+    if os.path.abspath(repo) != "/repo" and os.environ.get("RAFTLINT_SCRATCH_TARGET"):
+        lock_name = "extract-%s.lock" % hashlib.sha256(os.environ["RAFTLINT_SCRATCH_TARGET"].encode()).hexdigest()[:10]
+    lock = open(os.path.join(CACHE, lock_name), "w")
     fcntl.flock(lock, fcntl.LOCK_EX)
     try:
         if _complete(d, fs):
@@ -135,6 +139,9 @@ def ensure_facts(fs="full", repo=REPO, log=sys.stderr):
             shutil.rmtree(d)
         os.makedirs(d)
         target = os.path.join(CACHE, "target-" + fs) if os.path.abspath(repo) == "/repo" else os.path.join(CACHE, "target-scratch-" + fs)
+        if os.path.abspath(repo) != "/repo" and os.environ.get("RAFTLINT_SCRATCH_TARGET"):
+            # parallel self-test shards: one cargo target dir per scratch copy (removed by the shard when it is done)
+            target = os.path.join(os.environ["RAFTLINT_SCRATCH_TARGET"], "target-" + fs)
         os.makedirs(target, exist_ok=True)
         # cargo's freshness cache would skip the wrapper: drop the members' fingerprints
         for fp in glob.glob(os.path.join(target, "debug", ".fingerprint", "d-engine*")):
